@@ -116,6 +116,9 @@ func isDelete(op string) bool { return strings.HasPrefix(op, "Delete") }
 // document writes down one abstract document (position pos in the stream) as the key/value structure a hook
 // would write; the same structure is then serialised as JSON and as YAML.
 func document(d Doc, pos int) map[string]any {
+	if d.Op == "Stray" { // not a document: a closing bracket without an opening one, written between the documents
+		return map[string]any{strayKey: d.Var}
+	}
 	m := map[string]any{"operation": d.Op}
 	if !isCreate(d.Op) {
 		m["apiVersion"] = apiVersion
@@ -184,11 +187,27 @@ func document(d Doc, pos int) map[string]any {
 	return m
 }
 
+// strayKey marks a stream element that is written as a bare token (spec/Patch: op "Stray", fault strayClose).
+const strayKey = "\x00stray"
+
+func strayToken(d map[string]any) (string, bool) {
+	t, ok := d[strayKey].(string)
+	return t, ok
+}
+
 // renderJSON: the documents one after the other (compact or indented, separated by a newline), as `jq -c`/`cat <<EOF`
 // in a hook would produce them.
 func renderJSON(docs []map[string]any, variant int) []byte {
 	var b bytes.Buffer
 	for i, d := range docs {
+		if t, ok := strayToken(d); ok {
+			// `{...}}` (a miscounted brace at the end of the previous document) or the bracket on a line of its own
+			if (variant+i)%2 == 0 && b.Len() > 0 {
+				b.Truncate(b.Len() - 1)
+			}
+			b.WriteString(t + "\n")
+			continue
+		}
 		var x []byte
 		if (variant+i)%2 == 0 {
 			x, _ = json.Marshal(d)
@@ -205,6 +224,14 @@ func renderJSON(docs []map[string]any, variant int) []byte {
 func renderYAML(docs []map[string]any, variant int) ([]byte, error) {
 	var b bytes.Buffer
 	for i, d := range docs {
+		if t, ok := strayToken(d); ok {
+			// the closest YAML analogue: the bracket as a document of its own, or on a line after the previous document
+			if (variant+i)%2 == 0 || i == 0 {
+				b.WriteString("---\n")
+			}
+			b.WriteString(t + "\n")
+			continue
+		}
 		if i > 0 || variant%2 == 0 {
 			b.WriteString("---\n")
 		}
